@@ -19,21 +19,28 @@ NEEDS_HOOKS = False
 TRUSTED_BASE = [
     'Lean 4.33.0 kernel; axioms admitted: propext, Classical.choice, Quot.sound (audited per theorem on every run); '
     '`decide +kernel` is used for facts over the 256 byte values',
-    'translator tools/extract/literals.py + cmini.py (small C expression/statement front end; clang-14 AST for the values of the '
-    "character constants in read_escaped_char): encode_utf8, decode_utf8, is_ident1/2 tables, UTF-16 surrogate arithmetic, "
-    'convert_pp_int base/suffix/type ladders, convert_pp_number suffix table, literal prefix dispatch of tokenize(), type.c sizes; '
-    'mitigated by the differential run of every translated function against the compiled C function (exhaustive over all '
-    '0x110000 code points in the thorough tier)',
-    'hand models lean/ChibiVerif/Model/Literals.lean (escape reader, string/char readers, convert_pp_int driver, strtoul digit loop, '
-    'join_adjacent_string_literals) and Model/Text.lean (BOM, canonicalize_newline, remove_backslash_newline, convert_universal_chars); '
-    'their source text is pinned by the translator and they are tied by in-process differential execution (testing)',
-    'Spec/LiteralsSpec.lean (my reading of C11 6.4.4.1p5, 6.4.4.2p4, 6.4.4.4, 6.4.5, Annex D, RFC 3629, RFC 2781), validated against '
+    'translator tools/extract/literals.py + cmini.py (small typed C expression/statement front end) + cursor.py (symbolic execution of '
+    'cursor functions and of in-place rewriting loops; clang-14 AST for the values of the character constants in read_escaped_char). '
+    'Translated whole: encode_utf8, decode_utf8, is_ident1/2 tables, UTF-16 surrogate arithmetic, convert_pp_int base/suffix/type '
+    'ladders, convert_pp_number suffix table, literal prefix dispatch of tokenize(), type.c sizes, from_hex, read_escaped_char, '
+    'read_universal_char, string_literal_end, canonicalize_newline, remove_backslash_newline, convert_universal_chars (the last three '
+    'with exact array semantics).  Mitigated by the differential run of every translated function against the compiled C function '
+    '(exhaustive over all 0x110000 code points in the thorough tier)',
+    'hand models lean/ChibiVerif/Model/Literals.lean (string/char reader loops, convert_pp_int driver, strtoul digit loop, pp-number scan, '
+    'join_adjacent_string_literals) and Model/Text.lean (BOM test, read_file final newline, order of the phases); their source text is '
+    'pinned by the translator and they are tied by in-process differential execution (testing).  The hand-written from_hex, '
+    'read_escaped_char, read_universal_char, string_literal_end, canonicalize_newline, remove_backslash_newline, '
+    'convert_universal_chars that the theorems are stated about are *proved equal* to the translated functions '
+    '(C11_translated_readers, C11_translated_phases)',
+    'Spec/LiteralsSpec.lean (my reading of C11 5.1.1.2, 6.4.4.1p5, 6.4.4.2p4, 6.4.4.4, 6.4.5, Annex D, RFC 3629, RFC 2781), validated against '
     'gcc 12 -std=c11 through compiled programs and against the python reference codecs in this file',
-    'libc strtoul/strtold (values of the digit sequences; floating constants are compared with gcc bit for bit but not modelled)',
+    'libc strtoul/strtold/strtof/strtod (values of the digit sequences; floating constants are compared with gcc bit for bit but not '
+    'modelled), isxdigit in the C locale',
     'identification long long = long (type.c has one 64-bit integer type per signedness): types are compared modulo it',
 ]
 ASSUMPTIONS = ['LP64, char signed, wchar_t = int, char16_t = unsigned short, char32_t = unsigned int (psABI x86-64)',
-               'source and execution character sets are UTF-8; source files contain no NUL byte',
+               'source and execution character sets are UTF-8; source files contain no NUL byte and are smaller than 2 GiB (the `int` '
+               'indices of the phase loops are modelled as natural numbers)',
                'excluded as implementation-defined / undefined / constraint violations: multi-character constants, decimal constants '
                'above LLONG_MAX without u, escapes out of range for the element type, universal character names for code points '
                'C11 6.4.3 disallows, invalid UTF-8 in the source, mixed wide prefixes in a concatenation, floating constants whose '
@@ -349,6 +356,85 @@ def leg_escape(ctx, corr):
         if w is not None and li != w:
             return {'what': 'read_escaped_char does not give the C11 6.4.4.4 value / length', 'expected': w}
     run_both(ctx, corr, ops, 'read_escaped_char', lambda op, li: True, oracle)
+
+# ------------------------------------------------------------------------------------------------ leg 3b: translated cursor functions
+
+def ref_string_end(t, start):
+    """reference for string_literal_end: index of the closing quote, None = unclosed (6.4.5: no new-line in an s-char-sequence)"""
+    i = start
+    while True:
+        c = t[i:i + 1]
+        if c == b'"':
+            return i
+        if c in (b'\n', b'', b'\0'):
+            return None
+        if c == b'\\' and t[i + 1:i + 2] not in (b'', b'\0'):
+            i += 1
+        i += 1
+
+def leg_translated(ctx, corr):
+    """from_hex / read_universal_char / string_literal_end: the functions translated into Gen/LitReadersGen.lean, run directly"""
+    rng = ctx.rng
+    def o_fhex(op, li):
+        b = int(op.split()[1], 16)
+        ch = chr(b)
+        if ch in '0123456789abcdefABCDEF' and li != f'fhex {int(ch, 16):x}':
+            return {'what': f'from_hex({ch!r}) is not the value of the hexadecimal digit', 'expected': f'fhex {int(ch, 16):x}'}
+    run_both(ctx, corr, [f'fhex {b:02x}' for b in range(1, 256)], 'from_hex', lambda op, li: True, o_fhex)
+    ops, expect = [], {}
+    for _ in range(300 if not ctx.thorough else 6000):
+        n = rng.choice([4, 8, 4, 8, 0, 1, 3, 7, 9])
+        k = rng.choice([n, n, n, n + 2, max(0, n - 1), rng.randrange(0, 12)])
+        body = ''.join(rng.choice('0123456789abcdefABCDEF') for _ in range(k))
+        if rng.random() < 0.3 and body:
+            j = rng.randrange(len(body))
+            body = body[:j] + rng.choice('gG xz\\"\n-') + body[j + 1:]
+        op = f'ruc {n} {hexs(body.encode())}'
+        ops.append(op)
+        h = body[:n]
+        if n > 8:
+            continue                                        # more than 32 bits: never called that way, no requirement (model <-> code only)
+        if len(h) == n and re.fullmatch(r'[0-9a-fA-F]*', h):
+            expect[op] = f'ruc {int(h, 16) if h else 0:x}'
+        else:
+            expect[op] = 'ruc 0'
+    def o_ruc(op, li):
+        if op in expect and li != expect[op]:
+            return {'what': 'read_universal_char does not return the value of the hexadecimal digits (0 if one is missing)', 'expected': expect[op]}
+    run_both(ctx, corr, ops, 'read_universal_char', lambda op, li: li != 'ruc 0', o_ruc)
+    ops, expect = [], {}
+    for _ in range(400 if not ctx.thorough else 8000):
+        n = rng.randrange(0, 14)
+        t = b''.join(rng.choice([b'a', b'b', b' ', b'"', b'"', b'\\', b'\\', b'\n', b"'", b'\\"', b'\\\\', b'\xc3\xa9', b'x']) for _ in range(n))
+        start = rng.randrange(0, len(t) + 1)
+        op = f'sle {start} {hexs(t)}'
+        ops.append(op)
+        r = ref_string_end(t, start)
+        expect[op] = 'sle err' if r is None else f'sle {r}'
+    def o_sle(op, li):
+        if li != expect[op]:
+            return {'what': 'string_literal_end does not find the closing quote of the string literal (6.4.5) / does not diagnose an unclosed literal',
+                    'expected': expect[op]}
+    run_both(ctx, corr, ops, 'string_literal_end', lambda op, li: li != 'sle err', o_sle)
+    # the translated readers, called directly (no oracle here: leg_readers and the end-to-end legs carry the C11 oracles)
+    ops = []
+    for _ in range(200 if not ctx.thorough else 5000):
+        kind = rng.choice(['n', 'u16', 'u32'])
+        pre = rng.choice([b'', b'u8', b'x = ']) if kind == 'n' else rng.choice([b'u', b'L', b'U', b''])
+        body = rand_content(rng, '' if kind == 'n' else ('u' if kind == 'u16' else 'U'))
+        if rng.random() < 0.15:
+            body = body[:rng.randrange(0, len(body) + 1)] + rng.choice([b'\n', b'\\', b'\xc3', b'\x80', b'\\xg', b'']) + body[len(body) // 2:]
+        tail = rng.choice([b'" rest', b'"', b'', b'\n"'])
+        ops.append('rsl %s %d %s' % (kind, len(pre), hexs(pre + bytes([34]) + body + tail)))
+    run_both(ctx, corr, ops, 'read_string_literal', lambda op, li: ' err ' not in li)
+    ops = []
+    for _ in range(200 if not ctx.thorough else 5000):
+        pre = rng.choice([b'', b'u', b'L', b'U'])
+        c = rng.choice(BOUNDARY_CPS) if rng.random() < 0.5 else rng.randrange(1, 0x110000)
+        body = rng.choice([ref_utf8(c) if is_scalar(c) else b'a', b'\\n', b'\\x41', b'\\101', b'\\\'', b'\\\\', b'\\', b'', b'\xc3', b'ab', b'\\xg', b'\n'])
+        tail = rng.choice([b"'", b"' + 1", b'', b"\n'", b"x'"])
+        ops.append(f"rcl {len(pre)} {hexs(pre + bytes([39]) + body + tail)}")
+    run_both(ctx, corr, ops, 'read_char_literal', lambda op, li: ' err ' not in li)
 
 # ------------------------------------------------------------------------------------------------ leg 4: literal readers, join, text phases
 
@@ -955,13 +1041,15 @@ def correspond(ctx, corr):
     corr.rule = ('(a) in-process: every operation line (encode_utf8 / decode_utf8 / is_ident / UTF-16 units per code point: all 1-/2-/3-/4-byte '
                  'boundaries +-2, surrogate edges, every range-table endpoint +-1, seeded random scalars (thorough: all 0x110000 code points); '
                  'convert_pp_int on threshold x base x suffix spellings; read_escaped_char forms; tokenize() on string/char literals of every '
-                 'prefix; join_adjacent_string_literals; BOM/CR/CRLF/splice/UCN texts) is run on the real code (harness, ASan/UBSan) and on the '
+                 'prefix; join_adjacent_string_literals; BOM/CR/CRLF/splice/UCN texts; from_hex on all bytes, read_universal_char, '
+                 'string_literal_end; tokenize_file() as a whole on files with 1-4 backslash-newlines inserted anywhere, whose first token '
+                 'must be that of the unspliced file inside the region of C11_text_transparent) is run on the real code (harness, ASan/UBSan) and on the '
                  'Lean model and compared, and the real code is compared with reference codecs / the C11 type table written in python. '
                  '(b) end-to-end: generated programs compiled by chibicc and by gcc -std=c11, outputs (type via _Generic, sizeof, value, code '
                  'units, float bits) compared; types compared modulo long long = long.  non-trivial = multi-byte/multi-unit/typed/err results; '
                  'distinct = by operation text / literal spelling.')
     times = {}
-    for leg in (run_corpus, leg_codepoints, leg_int, leg_escape, leg_readers, leg_splice, e2e_int, e2e_float, e2e_chars, e2e_strings, e2e_text, e2e_ident):
+    for leg in (run_corpus, leg_codepoints, leg_int, leg_escape, leg_translated, leg_readers, leg_splice, e2e_int, e2e_float, e2e_chars, e2e_strings, e2e_text, e2e_ident):
         t0 = time.time()
         leg(ctx, corr)
         times[leg.__name__] = round(time.time() - t0, 1)
@@ -972,28 +1060,41 @@ def correspond(ctx, corr):
                                          if ctx.thorough else 'none (quick tier samples boundaries)')
 
 def search(ctx, broken, corr):
-    """a proof or the tie broke and the standard run saw no violation: exhaustive code points and a larger threshold battery against the
-    python oracles and gcc"""
+    """a proof or the tie broke and the standard run saw no violation: exhaustive code points, a larger threshold battery and the larger
+    reader / text / splice batteries against the python oracles and gcc"""
     c2 = Corr()
     old = ctx.thorough
     ctx.thorough = True
     try:
-        leg_codepoints(ctx, c2)
+        for leg in (leg_translated, leg_escape, leg_int, leg_readers, leg_splice, leg_codepoints):
+            if c2.violations:
+                break
+            try:
+                leg(ctx, c2)
+            except ModelBuildFailure:
+                # the model does not build (a proof over a regenerated definition broke the library): oracle against the real code only
+                run_oracles_only(ctx, c2, leg)
         if not c2.violations:
-            leg_int(ctx, c2)
-        if not c2.violations:
-            leg_escape(ctx, c2)
-        if not c2.violations:
-            e2e_int(ctx, c2); e2e_chars(ctx, c2); e2e_strings(ctx, c2)
+            e2e_int(ctx, c2); e2e_chars(ctx, c2); e2e_strings(ctx, c2); e2e_text(ctx, c2)
     finally:
         ctx.thorough = old
     return c2.violations[0] if c2.violations else None
+
+def run_oracles_only(ctx, c2, leg):
+    """run a leg with the model side replaced by the implementation's own output (so only the oracles can speak)"""
+    saved = ctx.driver
+    try:
+        ctx.driver = lambda sub, text, **kw: '\n'.join(run_impl(ctx, text)) + '\n'
+        leg(ctx, c2)
+        c2.disagreements.clear()
+    finally:
+        ctx.driver = saved
 
 def replay(ctx, corr, path):
     payload = json.load(open(path))
     op = payload.get('input')
     corr.evaluations = 1
-    if isinstance(op, str) and op.split(' ')[0] in ('enc', 'dec', 'id', 'u16', 'int', 'esc', 'lit', 'text', 'join', 'file'):
+    if isinstance(op, str) and op.split(' ')[0] in ('enc', 'dec', 'id', 'u16', 'int', 'esc', 'lit', 'text', 'join', 'file', 'fhex', 'ruc', 'sle', 'rsl', 'rcl'):
         li = run_impl(ctx, op + '\n')
         lm = ctx.driver('literals', op + '\n').splitlines()
         print('replay:', op, '->', li[:1], 'model', lm[:1], 'expected', payload.get('expected'))
@@ -1016,22 +1117,32 @@ MANIFEST = {
                   'the RFC bit layout and rejects misplaced/missing continuation bytes (C11_utf8_layout/_patterns/_roundtrip/_decode/_rejects). '
                   'UTF-16: units of RFC 2781, surrogates in range, recombine (C11_utf16).  Identifiers: is_ident1/is_ident2 equal Annex D for '
                   'every code point (C11_ident_ranges).  Escapes: simple/octal by whole-table decision, hexadecimal for every digit sequence '
-                  '(C11_escape, _octal, _hex).  String literals: for every reader and every body of source characters and escapes the code '
+                  '(C11_escape, _octal, _hex; C11_escape_translated states them for the function translated from the C source).  String '
+                  'literals: for every reader and every body of source characters and escapes the code '
                   'units are the per-character UTF-8/UTF-16/UTF-32 encodings, with array length and token extent (C11_strings, '
                   'C11_string_char); character constants (C11_char_const); per-prefix element types (C11_prefix_types); floating suffix '
                   'types (C11_float_type).  Adjacent literals: kind resolution equals 6.4.5p5, different prefixes are diagnosed, the result is '
                   'the concatenation with one terminator (C11_join_prefix_spec, C11_strings_join, C11_strings_join_diagnosed).  Source '
                   'text: BOM, CR/CRLF/LF lines, splices (logical lines and newline count preserved), universal character names '
-                  '(C11_text_bom/_newlines/_splice/_ucn).  The translated functions are regenerated from the source on every run and run '
-                  'against the compiled C (exhaustively over all 0x110000 code points in the thorough tier); the hand models are tied by '
-                  'in-process differential execution; generated programs are compiled by chibicc and gcc -std=c11 and compared.',
-    'level_note': 'Trusted: Lean kernel (axioms propext, Classical.choice, Quot.sound), the translator, the hand models (tied by testing and '
-                  'by pinning their source text), Spec (validated against gcc 12 and python reference codecs), libc strtoul/strtold.  '
-                  'Floating-constant values are compared with gcc bit for bit but not modelled.  Open: the composition "splice anywhere '
-                  'does not change the token" (C11_text_transparent_Statement).  Types are stated modulo long long = long (chibicc has '
-                  'one 64-bit integer type per signedness; only _Generic/pointer compatibility can tell).',
-    'technique': 'Lean 4 proof over translator-regenerated codecs/ladders/tables (bit-vector facts lifted from all 256 byte values + omega; '
-                 'range tables decided at their endpoints; induction over literal bodies), whole-table decide; in-process differential '
-                 'correspondence; gcc -std=c11 as end-to-end oracle',
+                  '(C11_text_bom/_newlines/_splice/_ucn); composition with the tokenizer: the lines tokenize() sees are the logical lines of '
+                  'the unspliced phase-1 text with UCNs converted, for any number of splices (C11_text_lines); the literal token is read '
+                  'from the first line alone (C11_text_first_line); a backslash-newline anywhere — also inside a universal character name — '
+                  'and any number of them do not change the literal token (C11_text_transparent, C11_text_unspliced; the hypotheses are shown '
+                  'necessary by kernel-checked counterexamples reproduced on the real tokenizer).  The reader functions from_hex, '
+                  'read_escaped_char, read_universal_char, string_literal_end and the three in-place phase loops are translated from the C '
+                  'source on every run and proved equal to the functions the theorems are about; for the phase loops this includes that no '
+                  'store leaves the text (C11_translated_readers, C11_translated_phases).  The translated functions are run '
+                  'against the compiled C (exhaustively over all 0x110000 code points in the thorough tier); the remaining hand models are tied by '
+                  'in-process differential execution, including tokenize_file() as a whole on files with splices inserted anywhere; generated '
+                  'programs are compiled by chibicc and gcc -std=c11 and compared.',
+    'level_note': 'Trusted: Lean kernel (axioms propext, Classical.choice, Quot.sound), the translator, the remaining hand models (reader '
+                  'loops, pp-number scan, join, BOM test / final newline / phase order: tied by testing and by pinning their source text), '
+                  'Spec (validated against gcc 12 and python reference codecs), libc strtoul/strtold/isxdigit.  '
+                  'Floating-constant values are compared with gcc bit for bit but not modelled.  No open statement.  Types are stated '
+                  'modulo long long = long (chibicc has one 64-bit integer type per signedness; only _Generic/pointer compatibility can tell).',
+    'technique': 'Lean 4 proof over translator-regenerated codecs/ladders/tables/reader functions/in-place phase loops (bit-vector facts lifted '
+                 'from all 256 byte values + omega; range tables decided at their endpoints; induction over literal bodies and over texts; '
+                 'refinement of array-rewriting loops to list functions), whole-table decide; in-process differential correspondence; '
+                 'gcc -std=c11 as end-to-end oracle',
     'design_ref': 'DESIGN.md section 6, C11',
 }
